@@ -10,16 +10,17 @@ open WuffsVerif.Gen.C16 WuffsVerif.Flate.Spec
 attribute [local irreducible] Spec.fixedLitLens Spec.fixedDistLens Spec.fixedLit Spec.fixedDist
 
 /-- What a block function of the cutter does on a block of `s` at bit `p` that the spec decodes from
-`out` to `out1`, ending at `p1`.  `c` is the cutter just after the three header bits. -/
-structure BlockSim (s : Bytes) (c : Cutter) (p : Nat) (out : Bytes) (p1 : Nat) (out1 : Bytes)
+`out` to `out1`, ending at `p1`.  `c` is the cutter just after the three header bits; `k` is the length
+of the preset dictionary in front of the spec's output (0 without one): `decodedLen + k = out.size`. -/
+structure BlockSim (s : Bytes) (k : Nat) (c : Cutter) (p : Nat) (out : Bytes) (p1 : Nat) (out1 : Bytes)
     (r : Cutter × Option Err) : Prop where
   size : r.1.bits.bytes.size = s.size
   max : r.1.maxEncodedLen = c.maxEncodedLen
-  nil : r.2 = none → r.1.bits.bytes = s ∧ r.1.bits.pos = p1 ∧ r.1.decodedLen = (out1.size : Int) ∧
+  nil : r.2 = none → r.1.bits.bytes = s ∧ r.1.bits.pos = p1 ∧ r.1.decodedLen + (k : Int) = (out1.size : Int) ∧
       p1 ≤ 8 * c.maxEncodedLen ∧ r.1.OK
   prog : r.2 = some .someProgress → ∃ pos' o, 8 * r.1.bits.index - r.1.bits.nBits = pos' ∧
       r.1.bits.nBits ≤ 8 * r.1.bits.index ∧ r.1.bits.nBits ≤ 8 ∧ pos' ≤ 8 * c.maxEncodedLen ∧
-      r.1.decodedLen = (o.size : Int) ∧ (∃ x, out1 = o ++ x) ∧
+      r.1.decodedLen + (k : Int) = (o.size : Int) ∧ (∃ x, out1 = o ++ x) ∧
       (∀ i, i ≤ p → bitAt r.1.bits.bytes i = bitAt s i) ∧ BlockAt r.1.bits.bytes p out pos' o
   keep : r.2 = some .noProgress ∨ r.2 = some .replaceWithSingleBlock → r.1.bits.bytes = s
   keepD : r.2 = some .noProgress → r.1.decodedLen = c.decodedLen
@@ -37,13 +38,14 @@ theorem reach_extends {hl hd : Huff} {minL minD : Nat} {s : Bytes} {p q : Nat} {
 /-- A fixed-Huffman block. -/
 theorem fixed_blocksim (s : Bytes) (c : Cutter) (hc : c.OK) (hb : c.bits.bytes = s) (p : Nat)
     (hp : c.bits.pos = p + 3) (out : Bytes) (p1 : Nat) (out1 : Bytes) (hty : bitsLE s (p + 1) 2 = 1)
-    (hbody : blockBody s none 0 p out = .next p1 out1) (hcd : c.decodedLen = (out.size : Int))
+    (hbody : blockBody s none 0 p out = .next p1 out1) (k : Nat)
+    (hcd : c.decodedLen + (k : Int) = (out.size : Int)) (hc0 : 0 ≤ c.decodedLen)
     (hT : (out1.size : Int) < 2147483648) (isFirst : Bool) :
-    BlockSim s c p out p1 out1 (c.doStaticHuffman isFirst) := by
+    BlockSim s k c p out p1 out1 (c.doStaticHuffman isFirst) := by
   have e1 : ¬ ((1 : Nat) = 0) := by omega
   have hspec : huffBlock fixedLit fixedDist 7 5 s none 0 (8 * s.size + 1) (p + 3) out = .next p1 out1 := by
     simpa only [blockBody, hty, e1, if_false, if_true] using hbody
-  have hsim := doStaticHuffman_sim c hc (8 * s.size + 1) p1 out out1 (by rw [hb, hp]; exact hspec) hcd hT isFirst
+  have hsim := doStaticHuffman_sim c hc (8 * s.size + 1) p1 out out1 (by rw [hb, hp]; exact hspec) k hcd hc0 hT isFirst
   have htot := doStaticHuffman_total c hc isFirst
   obtain ⟨k1, k2, k3, k4, k5, k6⟩ := hsim
   refine ⟨by rw [k1, hb], k2, ?_, ?_, fun h => by rw [k5 h, hb], k6⟩
@@ -139,9 +141,10 @@ theorem stored_body (s : Bytes) (p : Nat) (out : Bytes) (p1 : Nat) (out1 : Bytes
 /-- A stored block, at any bit position. -/
 theorem stored_blocksim (s : Bytes) (c : Cutter) (hc : c.OK) (hb : c.bits.bytes = s) (p : Nat)
     (hp : c.bits.pos = p + 3) (out : Bytes) (p1 : Nat) (out1 : Bytes) (hty : bitsLE s (p + 1) 2 = 0)
-    (hbody : blockBody s none 0 p out = .next p1 out1) (hcd : c.decodedLen = (out.size : Int))
+    (hbody : blockBody s none 0 p out = .next p1 out1) (k : Nat)
+    (hcd : c.decodedLen + (k : Int) = (out.size : Int)) (hc0 : 0 ≤ c.decodedLen)
     (hT : (out1.size : Int) < 2147483648) :
-    BlockSim s c p out p1 out1 c.doStored := by
+    BlockSim s k c p out p1 out1 c.doStored := by
   obtain ⟨g1, g2, g3, g4, g5⟩ := stored_body s p out p1 out1 hty hbody
   generalize hqd : (p + 3 + 7) / 8 = q at *
   have htot := doStored_total c hc
@@ -177,10 +180,10 @@ theorem stored_blocksim (s : Bytes) (c : Cutter) (hc : c.OK) (hb : c.bits.bytes 
     rw [or_shl8 _ _ (s.getD q 0).toNat_lt, or_shl8 _ _ (s.getD (q + 2) 0).toNat_lt, hlend]
     have hsum : ¬ (len + ((s.getD (q + 2) 0).toNat + 256 * (s.getD (q + 3) 0).toNat) ≠ 0xFFFF) := by omega
     simp only [hsum, if_false]
-    have hw : wrap32 (c.decodedLen + (len : Int)) = ((out.size + len : Nat) : Int) := by
-      rw [hcd]; rw [wrap32_range] <;> omega
+    have hw : wrap32 (c.decodedLen + (len : Int)) = c.decodedLen + (len : Int) := by
+      rw [wrap32_range] <;> omega
     rw [hw]
-    have hnn : ¬ (((out.size + len : Nat) : Int) < 0) := by omega
+    have hnn : ¬ (c.decodedLen + (len : Int) < 0) := by omega
     simp only [hnn, if_false]
   -- nil
   · by_cases hrem : c.maxEncodedLen - (q + 4) ≥ len
@@ -188,8 +191,8 @@ theorem stored_blocksim (s : Bytes) (c : Cutter) (hc : c.OK) (hb : c.bits.bytes 
       intro _
       refine ⟨by first | trivial | rfl, ?_, ?_, by omega, ⟨inv_fresh s _ (by omega), hmax, hc.l, hc.d⟩⟩
       · simp only [Bitstream.pos]; omega
-      · show ((out.size + len : Nat) : Int) = (out1.size : Int)
-        rw [ho1]
+      · show c.decodedLen + (len : Int) + (k : Int) = (out1.size : Int)
+        rw [ho1]; omega
     · simp only [hrem, if_false]
       split <;> (intro h; simp at h)
   -- someProgress
@@ -205,10 +208,10 @@ theorem stored_blocksim (s : Bytes) (c : Cutter) (hc : c.OK) (hb : c.bits.bytes 
         refine ⟨8 * c.maxEncodedLen, out ++ s.extract (q + 4) (q + 4 + r), by show 8 * (q + 4 + r) - 0 = _; omega,
           by show 0 ≤ _; omega, by show 0 ≤ 8; omega, Nat.le_refl _, ?_, ?_, ?_, ?_⟩
         · have : (s.extract (q + 4) (q + 4 + r)).size = r := by simp [Array.size_extract]; omega
-          have hw2 : wrap32 (c.decodedLen + (r : Int)) = ((out.size + r : Nat) : Int) := by
-            rw [hcd]; rw [wrap32_range] <;> omega
-          show wrap32 (c.decodedLen + (r : Int)) = _
-          rw [hw2]; simp [Array.size_append, this]
+          have hw2 : wrap32 (c.decodedLen + (r : Int)) = c.decodedLen + (r : Int) := by
+            rw [wrap32_range] <;> omega
+          show wrap32 (c.decodedLen + (r : Int)) + (k : Int) = _
+          rw [hw2]; simp only [Array.size_append, this]; omega
         · exact ⟨s.extract (q + 4 + r) (q + 4 + len), by
             rw [g5, Array.append_assoc, ← extract_split s (q + 4) (q + 4 + r) (q + 4 + len) (by omega) (by omega) g3]⟩
         · intro i hi
